@@ -146,8 +146,10 @@ CHECKS = {
         text=("The consumer (sim thread 0) pulls k chunks and parks; the scheduler runs the pipeline to "
               "quiescence; Q = source chunks produced. The same seed with a run twice as long must reach the "
               "same Q < N (relational oracle, no hand-derived bound); eager: len(mailbox) <= capacity after every "
-              "scheduler step; lazy: at every source advance a driving reader waits for a missing message; then "
-              "the consumer drains (rows must be right) or closes."),
+              "scheduler step; lazy: at every source advance a driving reader waits for a missing message, and "
+              "exactly k source chunks exist once the consumer has taken k (demand is passed on by every stage); "
+              "then the consumer drains (rows must be right) or closes (production must stop: at most one further "
+              "source chunk per stage, no thread left)."),
         note=PIPE_NOTE),
     "C05": dict(
         category="exploration", design_ref="DESIGN.md §5 C05",
